@@ -84,6 +84,11 @@ Proof.
   - intros [H | H]; auto. destruct (IH l H); auto.
 Qed.
 
+Lemma firstn_In {B} (y : B) n : forall l, In y (firstn n l) -> In y l.
+Proof. induction n as [|n IH]; intros [|a l]; simpl; auto. intros []. intros [H | H]; auto. Qed.
+Lemma skipn_In {B} (y : B) n : forall l, In y (skipn n l) -> In y l.
+Proof. induction n as [|n IH]; intros [|a l]; simpl; auto. Qed.
+
 Lemma cst_eq a b : items a = items b -> rec a = rec b -> a = b.
 Proof. destruct a, b. simpl. intros -> ->. reflexivity. Qed.
 
@@ -135,6 +140,10 @@ Proof.
       injection Hs as <-. apply replace_at_In in Hy. apply in_or_app.
       destruct Hy as [-> | Hy]; [right; now left | left; auto].
     + repeat split; auto using incl_appl, incl_refl.
+  - (* list SetSlice *) repeat split; auto using incl_appl, incl_refl.
+    intros y Hy. unfold py_setslice in Hy. apply in_or_app.
+    apply in_app_or in Hy. destruct Hy as [Hy | Hy]; [left; apply Hin; eapply firstn_In; eauto|].
+    apply in_app_or in Hy. destruct Hy as [Hy | Hy]; [right; exact Hy | left; apply Hin; eapply skipn_In; eauto].
   - (* set Assign *) repeat split; auto using incl_appl, incl_refl.
     + apply set_union_NoDup. constructor.
     + intros y Hy. apply set_union_In in Hy. destruct Hy as [[] | Hy]. apply in_or_app. auto.
@@ -198,4 +207,11 @@ Proof.
   exists (init KList [0]), 1. split; [exact I|]. split.
   - intros y Hy. exact Hy.
   - simpl. split; [right; now left|]. intros [H | []]. discriminate.
+Qed.
+
+(* x.f[0:1] = (c for c in [c1, c2]) on [c0]: the field ends up empty, Python gives [c1, c2] *)
+Theorem refuted_slice_generator : exists s i j vs, wf KList (items s) /\ incl (items s) (rec s) /\ items (setslice_gen i j vs s) <> py_setslice i j vs (items s).
+Proof.
+  exists (init KList [0]), 0%Z, 1%Z, [1; 2]. split; [exact I|]. split; [intros y Hy; exact Hy|].
+  vm_compute. discriminate.
 Qed.
